@@ -15,11 +15,12 @@ ASSUME TLCSet(2, [t \in 1..Len(Traces) |-> 0])
 ObsOK(o) ==
   /\ o.wire = wire'
   /\ o.att = att'
+  /\ o.cons = cons'
   /\ \A s \in Streams : o.rep[s] = st'[s].rep
   \* waiting for the SETCONF answer and waiting for the circuit look the same from outside: not yet connecting
   /\ \A i \in 1..Len(ConnOrder) : o.via[i] = (IF via'[ConnOrder[i]].st \in {"waitconf", "waitbuilt"} THEN "wait" ELSE via'[ConnOrder[i]].st)
   /\ ~o.exc
-PropsOK == OneDecision' /\ NothingForExit' /\ ViaExact' /\ Answered' /\ ViaNeverRefused'
+PropsOK == ConsultedInOrder' /\ OneDecision' /\ NothingForExit' /\ ViaExact' /\ Answered' /\ ViaNeverRefused'
 Step(e) ==
   CASE e.a = "NewStream"   -> NewStream(e.s, e.kind, e.p, e.ans, e.mode)
     [] e.a = "Answer"      -> Answer(e.s)
@@ -30,6 +31,9 @@ Step(e) ==
     [] e.a = "ConfAck"     -> ConfAck
     [] e.a = "ViaAddr"     -> ViaAddr(e.k, e.p)
     [] e.a = "CircStep"    -> CircStep(e.c, e.to)
+    [] e.a = "AddSub"      -> AddSub(e.x, e.prio)
+    [] e.a = "RemSub"      -> RemSub(e.x)
+    [] e.a = "NewStreamP"  -> NewStreamP(e.s, e.kind, e.p, e.sa)
     [] OTHER -> FALSE
 TInit == Init /\ tid \in 1..Len(Traces) /\ l = 1
 TNext ==
